@@ -954,7 +954,7 @@ def clean(lines):
             break
 
 
-def drive(run, profile, nscripts, nops, theorem_pid=None, asan=False, reopen=False, extra_check=None, audit=False, geometry=0, boundary=0, bigfile=0):
+def drive(run, profile, nscripts, nops, theorem_pid=None, asan=False, reopen=False, extra_check=None, audit=False, geometry=0, boundary=0, bigfile=0, slack=True, destroy=0):
     """common body of the KV checks"""
     proofs_ok = run.proofs(theorem_pid or run.pid)
     impl = vlib.build_harness("h_kv", "asan" if asan else "plain")
@@ -987,11 +987,15 @@ def drive(run, profile, nscripts, nops, theorem_pid=None, asan=False, reopen=Fal
             rng = run.rng.fork()
             ls, meta = geometry_script(rng, os.path.join(work, "g%d.db" % n), wal=rng.below(2))
             scripts.append(("geom%d" % n, ls, meta))
+        for n in range(destroy or 0):
+            rng = run.rng.fork()
+            ls, meta = destroy_script(rng, os.path.join(work, "d%d.db" % n), wal=rng.below(2))
+            scripts.append(("destroy%d" % n, ls, meta))
         for n in range(bigfile or 0):
             rng = run.rng.fork()
             ls, meta = bigfile_script(rng, os.path.join(work, "big%d.db" % n))
             scripts.append(("bigfile%d" % n, ls, meta))
-        for n in range(204 if boundary else 0):
+        for n in range(204 if (boundary and slack) else 0):
             rng = run.rng.fork()
             ls, meta = slack_script(n, rng, os.path.join(work, "k%d.db" % n), wal=rng.below(2))
             scripts.append(("slack%d" % n, ls, meta))
@@ -1129,8 +1133,52 @@ def boundary_script(rng, path, wal=0):
     (b) pair lengths around the varint boundaries (127/128, 16383/16384): values overwritten in place growing and
         shrinking by one or two bytes until the data block has no spare byte."""
     L = ["open %s %d 0 1 0" % (path, wal), "db 0 1 000"]
-    kind = rng.choice(["prefix", "prefix", "varint", "varint", "mixed"])
+    kind = rng.choice(["prefix", "prefix", "varint", "varint", "mixed", "long", "long"])
     keys = []
+
+    def probes(around):
+        # cursor GE / EQ with present and absent keys right at, just above and just below the given keys
+        out = []
+        for k in around:
+            cands = [k, k + b"\x00", k[:-1] + bytes([max(0, k[-1] - 1)]) + b"\xff", k[:-1] + bytes([min(255, k[-1] + 1)])]
+            if len(k) > 116:
+                cands.append(k[:100] + bytes([k[100] ^ 1]) + k[101:])
+                cands.append(k[:115])
+            for q in cands:
+                if q:
+                    out.append("copen 1 0 %d %s 0" % (rng.choice([6, 6, 5]), hexb(q)))
+                    out.append("cget 1")
+                    if rng.chance(1, 3):
+                        out += ["cto 1 %d" % rng.choice([3, 4]), "cget 1"]
+                    out.append("cclose 1")
+        return out
+    if kind == "long":
+        # keys longer than the 115-byte cached prefix with DIFFERENT leading bytes, a few short ones between them;
+        # enough of them for one or two nodes; the first key of a node is deleted again and again
+        n = rng.choice([4, 8, 20, 40])
+        for i in range(n):
+            ln = rng.choice([20, 115, 116, 117, 130, 200])
+            keys.append(bytes([40 + (i * 5) % 200]) + rng.bytes(ln - 1))
+        keys = list(dict.fromkeys(keys))
+        for k in keys:
+            L.append("put 0 %s 0 %s 0 0" % (hexb(k), hexb(rng.bytes(rng.choice([1, 5, 20])))))
+        L.append("struct 0")
+        order = sorted(keys, reverse=True)
+        for rnd in range(rng.choice([3, 6, 12])):
+            if not order:
+                break
+            i = rng.choice([0, 0, min(len(order) - 1, 32 - rng.below(3)), rng.below(len(order))])
+            victim = order[i]
+            L.append("del 0 %s 0" % hexb(victim))
+            order.remove(victim)
+            near = [victim] + order[max(0, i - 1):i + 1]
+            L += probes(near)
+            for k in near:
+                L.append("get 0 %s 0" % hexb(k))
+            L.append("struct 0")
+            if rng.chance(1, 3):
+                L.append("put 0 %s 0 %s 0 0" % (hexb(victim), hexb(rng.bytes(4))))
+                order = sorted(order + [victim], reverse=True)
     if kind in ("prefix", "mixed"):
         common = rng.bytes(1) * rng.choice([112, 113, 114, 115, 116])
         for i in range(rng.choice([3, 6, 12])):
@@ -1152,6 +1200,8 @@ def boundary_script(rng, path, wal=0):
             if order:
                 L.append("put 0 %s 0 %s 1 0" % (hexb(rng.choice(order)), hexb(rng.bytes(3))))     # NO_OVERWRITE on a present key
             L.append("struct 0")
+            if rng.chance(1, 2):
+                L += probes([victim] + order[:2])
             if rng.chance(1, 2):
                 L.append("put 0 %s 0 %s 0 0" % (hexb(victim), hexb(rng.bytes(4))))
                 order = sorted(order + [victim], reverse=True)
@@ -1176,6 +1226,37 @@ def boundary_script(rng, path, wal=0):
                 L.append("struct 0")
     L += ["dump 0", "rdump 0", "struct 0", "close", "open %s %d 0 0 0" % (path, wal), "db 0 1 000", "dump 0", "struct 0", "close"]
     return L, {"modes": ["000"], "wal": wal}
+
+
+def destroy_script(rng, path, wal=0):
+    """a database of many nodes (several node pages of 16 nodes) is thinned out to a few surviving nodes - a window of
+    the key range, so that whole pages hold a single live node in any of their slots - and then destroyed; the other
+    database stays; the independent reader must find every block of the destroyed one free again."""
+    L = ["open %s %d 0 1 0" % (path, wal), "db 0 1 000", "db 1 2 000"]
+    n = rng.choice([200, 400, 512, 520, 700, 1100])
+    asc = rng.chance(2, 3)
+    idx = list(range(n)) if asc else list(range(n - 1, -1, -1))
+    if rng.chance(1, 5):
+        for i in range(len(idx) - 1, 0, -1):
+            j = rng.below(i + 1)
+            idx[i], idx[j] = idx[j], idx[i]
+    for i in idx:
+        L.append("put 0 %s 0 %s 0 0" % (hexb(b"k%05d" % i), hexb(b"v")))
+    for i in range(rng.choice([0, 3, 40])):
+        L.append("put 1 %s 0 %s 0 0" % (hexb(b"o%04d" % i), hexb(rng.bytes(rng.choice([1, 30, 300])))))
+    width = rng.choice([1, 1, 8, 32, 33, 64, 100])
+    a = rng.choice([0, n - width, rng.below(max(1, n - width)), (rng.below(max(1, n // 32)) * 32) % max(1, n - width)])
+    keep = set(range(a, min(n, a + width)))
+    if rng.chance(1, 4):
+        keep |= set(range(max(0, a - 3 * 32), max(0, a - 3 * 32) + rng.choice([1, 32])))
+    for i in range(n):
+        if i not in keep:
+            L.append("del 0 %s 0" % hexb(b"k%05d" % i))
+    L += ["struct 0", "sync", "dbdestroy 0", "struct 1", "sync"]
+    if rng.chance(1, 2):
+        L += ["db 0 1 000", "put 0 6161 0 62 0 0", "struct 0"]
+    L += ["close", "open %s %d 0 0 0" % (path, wal), "db 1 2 000", "dump 1", "close"]
+    return L, {"modes": ["000", "000"], "wal": wal}
 
 
 def slack_script(n, rng, path, wal=0):
